@@ -11,7 +11,9 @@ use std::path::PathBuf;
 use std::sync::Mutex;
 use std::time::Instant;
 
-pub const VERIF_ROOT: &str = "/verif";
+pub fn verif_root() -> String {
+    std::env::var("VERIF_ROOT").unwrap_or_else(|_| "/verif".to_string())
+}
 
 #[derive(Clone, Copy, PartialEq, Eq, Debug)]
 pub enum Tier {
@@ -106,7 +108,7 @@ pub struct KnownFinding {
 }
 
 pub fn load_known_findings() -> Vec<KnownFinding> {
-    let p = format!("{VERIF_ROOT}/known_findings.json");
+    let p = format!("{}/known_findings.json", verif_root());
     match std::fs::read_to_string(&p) {
         Ok(s) => match serde_json::from_str::<Value>(&s) {
             Ok(v) => serde_json::from_value(v["findings"].clone())
@@ -300,7 +302,7 @@ impl Report {
             "violations": unlisted.len(),
             "machinery_error": machinery,
         });
-        let dir = format!("{VERIF_ROOT}/evidence");
+        let dir = format!("{}/evidence", verif_root());
         let _ = std::fs::create_dir_all(&dir);
         let path = format!("{dir}/{}.json", self.property);
         let tmp = format!("{path}.tmp");
@@ -330,7 +332,7 @@ impl Report {
         if unlisted.is_empty() {
             std::process::exit(0);
         }
-        let rdir = format!("{VERIF_ROOT}/replays/{}", self.property);
+        let rdir = format!("{}/replays/{}", verif_root(), self.property);
         let _ = std::fs::create_dir_all(&rdir);
         for (key, count, replay) in &unlisted {
             let file = format!("{rdir}/{}.json", digest_str(key));
